@@ -129,6 +129,14 @@ def run_check(prop, level, case_fn, specs, tier, seed, rule, assumptions=(),
     t0 = time.time()
     known, _fixed = load_known()
     specs = list(specs)
+    only = os.environ.get('VERIF_ONLY_SPEC')
+    if only:
+        # replay mode: run exactly the recorded case again
+        want = json.loads(only)
+        specs = [sp for sp in specs if _jsonable(sp) == want]
+        if not specs:
+            raise HarnessError('the recorded case %r is not among the cases of this tier/seed' % (want,))
+        min_events = 0
     agg = CaseResult()
     sigs = set()
     samples = []
@@ -223,12 +231,12 @@ def run_check(prop, level, case_fn, specs, tier, seed, rule, assumptions=(),
             sys.stderr.write('HARNESS ERROR in case %r:\n%s\n' % (spec, err))
         if exit_code == 0:
             exit_code = 2
-    if exit_code == 0 and (agg.execs == 0 or len(sigs) < 2 or agg.events < min_events):
+    if exit_code == 0 and not only and (agg.execs == 0 or len(sigs) < 2 or agg.events < min_events):
         sys.stderr.write('INCONCLUSIVE: monitors observed too little (execs=%d distinct=%d events=%d)\n'
                          % (agg.execs, len(sigs), agg.events))
         exit_code = 2
     wall = time.time() - t0
-    if exit_code != 2 and agg.execs > 0 and len(sigs) >= 2:
+    if exit_code != 2 and agg.execs > 0 and len(sigs) >= 2 and not only:
         os.makedirs(EVIDENCE_DIR, exist_ok=True)
         ev = {'property_id': prop, 'tier': tier, 'seed': seed, 'level': level,
               'coverage': cov, 'assumptions': list(assumptions), 'wall_s': round(wall, 2),
